@@ -8,9 +8,6 @@ From PyqspV Require Import Base.Ops Model.LPolyM Model.LAlgM Model.QInst Model.C
 Import ListNotations.
 Open Scope R_scope.
 
-Lemma Qltb_ok x y : Qltb x y = true -> Q2R x < Q2R y.
-Proof. unfold Qltb. destruct (x ?= y)%Q eqn:E; try discriminate. intros _. apply Qlt_alt in E. apply Qlt_Rlt; exact E. Qed.
-
 Lemma all_abs_lt_ok l tol : all_abs_lt l tol = true -> Forall (fun c => Rabs (Q2R c) < Q2R tol) l.
 Proof.
   induction l as [|x l IH]; cbn [all_abs_lt]; intros H; constructor.
